@@ -26,8 +26,11 @@ def interleaved(task):
     keys = ['alpha', 'beta', 'alpha.2'] if rng.random() < 0.5 else ['k', 'k_', 'K']
     insts = {}
     progs = []
+    # a third of the programs configure every instance the way distributed-walrus and octopii do: WALRUS_DATA_DIR in the (process-wide)
+    # environment right before a keyed constructor
+    via = 'for_key' if task['idx'] % 3 == 2 else 'builder'
     for h in range(1, n + 1):
-        params = {'mode': rng.choice(['strict', 'strict', {'alo': 2}]), 'sched': rng.choice(['none', 'sync', 'ms:50']), 'backend': task['backend'], 'via': 'builder',
+        params = {'mode': rng.choice(['strict', 'strict', {'alo': 2}]), 'sched': rng.choice(['none', 'sync', 'ms:50']), 'backend': task['backend'], 'via': via,
                   'key': keys[h - 1] if same_dir else rng.choice(['k', keys[h - 1]]), 'dir': base if same_dir else os.path.join(base, 'd%d' % h)}
         os.makedirs(params['dir'], exist_ok=True)
         insts[h] = params
